@@ -38,8 +38,14 @@ fn session(id: u64, ss: u32, rs: u32, sl: u32, rl: u32, end: End) -> (Vec<FromSy
         End::FailedDuringLive => {
             v.push(fs(id, Ev::SyncFinished { metrics: m(ss, rs, 0, 0) }));
             v.push(fs(id, Ev::LiveModeStarted));
+            // an operation received in live mode reports the live bytes transferred so far; then the session fails
+            let sk = p2panda_core::SigningKey::generate();
+            let mut header = p2panda_core::Header::<()> { verifying_key: sk.verifying_key(), version: 1, signature: None, payload_size: 0, payload_hash: None, seq_num: 0, backlink: None, extensions: () };
+            header.sign(&sk);
+            let op = p2panda_core::Operation { hash: header.hash(), header, body: None };
+            v.push(fs(id, Ev::OperationReceived { operation: Box::new(op), metrics: m(ss, rs, sl, rl) }));
             v.push(fs(id, Ev::Failed { error: "x".into() }));
-            (v, (ss, rs))
+            (v, (ss + sl, rs + rl))
         }
     }
 }
@@ -53,9 +59,10 @@ fn main() {
         for e2 in ends {
             for (ss, rs, sl, rl) in [(100u32, 40u32, 20u32, 7u32), (0, 0, 5, 5), (1, 0, 0, 0)] {
                 let (a, ea) = session(1, ss, rs, sl, rl, e1);
-                let (b, eb) = session(2, ss + 3, rs + 1, sl, rl + 2, e2);
-                // sequential and interleaved
-                for interleave in [false, true] {
+                // sequential (also with the SAME session id used again by the second session: ids restart at 0 when the topic
+                // manager is restarted) and interleaved
+                for (interleave, id2) in [(false, 2u64), (true, 2), (false, 1)] {
+                let (b, eb) = session(id2, ss.saturating_sub(3), rs + 1, sl, rl + 2, e2);
                     let mut evs = vec![];
                     if interleave {
                         let (mut i, mut j) = (0, 0);
@@ -75,7 +82,7 @@ fn main() {
                             _ => "other",
                         };
                         if reported.insert(class) {
-                            rp_core::report(true, class, json!({"session1": format!("{:?} sync=({ss},{rs}) live=({sl},{rl})", e1), "session2": format!("{:?}", e2), "interleaved": interleave}),
+                            rp_core::report(true, class, json!({"session1": format!("{:?} sync=({ss},{rs}) live=({sl},{rl})", e1), "session2": format!("{:?} (session id {id2})", e2), "interleaved": interleave}),
                                 json!({"(running,sent_total,received_total)": [running, sent, recv], "expected": [want.0, want.1, want.2]}),
                                 &["sync_metrics::Aggregator::process.ensures#each_byte_counted_once", "sync_metrics::Aggregator::process.safety"]);
                         }
